@@ -206,8 +206,20 @@ Section WithUrlOracle.
 
   (* ---- ietf-json-patch ---- *)
 
+  (* validateJSONPointer: rooted, and the first reference token (RFC 6901 unescaped) is not a
+     protected member's name *)
+  Definition pointer_first (p : string) : option string :=
+    match split_path p with
+    | _ :: x :: _ => Some (decode_key x)
+    | _ => None
+    end.
+
   Definition pointer_ok (p : string) : bool :=
-    andb (is_prefix "/" p) (andb (negb (is_prefix "/service" p)) (negb (is_prefix "/publicKey" p))).
+    andb (is_prefix "/" p)
+         (match pointer_first p with
+          | Some t => andb (negb (String.eqb t "service")) (negb (String.eqb t "publicKey"))
+          | None => true
+          end).
 
   (* validateJSONPatches on the decoded operation list *)
   Definition validate_ietf_op (opj : json) : bool :=
